@@ -637,7 +637,9 @@ def inline_private_helpers(F, fn, depth=2, max_blocks=4000, light=True):
                 continue
             g_ty = (g.j.get("self_ty") or "").split("<")[0]
             same_type = g_ty == base_ty
-            same_file_free_fn = not g.j.get("self_ty") and g.kind == "fn" and g.loc.get("f") == fn.loc.get("f")
+            # a non-public function or method written in the same file as its caller (module privacy: only this module can call
+            # it) - a free helper, or a private method put on another type of the module (`ConfigDatabase::record_creation_config`)
+            same_file_free_fn = g.loc.get("f") == fn.loc.get("f")
             private_helper = (same_type or same_file_free_fn) and (g.j.get("vis") or "") != "Public"
             # methods of small record types (not the engine, the database struct or a table type), whatever their visibility:
             # logic moved onto the record it concerns (`info.require_next_tx(..)`) is still the caller's logic
